@@ -111,6 +111,89 @@ def _check_counter(R, rid, f, counter):
               "generated names collide" % (f.qualname, counter, "increments per call: %s" % sorted(at_exit)))
 
 
+def _canon(P, f, keep=()):
+    """view of a work-list function in one canonical form: private helpers spliced in (except `keep`), single-assignment aliases of
+    attribute chains substituted, `Q.extend(E)` / `Q = deque(E)` written as loops of `Q.append(...)`, adjacent loops over the same
+    collection merged — so that the rules below see one shape whichever idiom the maintainer prefers"""
+    from ..inline import inlined_view
+    from ..core import FuncInfo, copy_tree
+    g = inlined_view(P, f, keep=keep)
+    node = copy_tree(g.node)
+    # aliases
+    stores = {}
+    for n in ast.walk(node):
+        if isinstance(n, ast.Name) and isinstance(n.ctx, ast.Store):
+            stores[n.id] = stores.get(n.id, 0) + 1
+    alias = {}
+    for n in ast.walk(node):
+        if isinstance(n, ast.Assign) and len(n.targets) == 1 and isinstance(n.targets[0], ast.Name) and stores.get(n.targets[0].id) == 1 \
+                and isinstance(n.value, ast.Attribute) and norm(n.value).endswith((".children", ".cables", ".ports", ".pins")):
+            alias[n.targets[0].id] = n.value
+
+    class A(ast.NodeTransformer):
+        def visit_Name(self, n):
+            if isinstance(n.ctx, ast.Load) and n.id in alias:
+                return ast.copy_location(copy_tree(alias[n.id]), n)
+            return n
+    node = A().visit(node)
+    counter = [0]
+
+    def loop_over(coll, q, elem, at):
+        counter[0] += 1
+        v = "_v%d" % counter[0]
+        body = ast.Expr(value=ast.Call(func=ast.Attribute(value=ast.Name(id=q, ctx=ast.Load()), attr="append", ctx=ast.Load()),
+                                       args=[elem if elem is not None else ast.Name(id=v, ctx=ast.Load())], keywords=[]))
+        lp = ast.For(target=ast.Name(id=v, ctx=ast.Store()), iter=coll, body=[body], orelse=[])
+        return ast.fix_missing_locations(ast.copy_location(lp, at))
+
+    def rewrite(stmts):
+        out = []
+        for st in stmts:
+            for fld in ("body", "orelse", "finalbody"):
+                sub = getattr(st, fld, None)
+                if isinstance(sub, list) and sub and isinstance(sub[0], ast.stmt):
+                    setattr(st, fld, rewrite(sub))
+            rep = None
+            if isinstance(st, ast.Expr) and isinstance(st.value, ast.Call) and isinstance(st.value.func, ast.Attribute) and st.value.func.attr == "extend" \
+                    and isinstance(st.value.func.value, ast.Name) and len(st.value.args) == 1:
+                q, e = st.value.func.value.id, st.value.args[0]
+                if isinstance(e, ast.BinOp) and isinstance(e.op, ast.Mult) and isinstance(e.left, ast.List) and len(e.left.elts) == 1 \
+                        and isinstance(e.right, ast.Call) and norm(e.right.func) == "len" and e.right.args:
+                    rep = [loop_over(e.right.args[0], q, e.left.elts[0], st)]
+                else:
+                    rep = [loop_over(e, q, None, st)]
+            elif isinstance(st, ast.Assign) and len(st.targets) == 1 and isinstance(st.targets[0], ast.Name) and isinstance(st.value, ast.Call) \
+                    and norm(st.value.func) in ("deque", "collections.deque") and len(st.value.args) == 1:
+                q = st.targets[0].id
+                empty = ast.Assign(targets=[ast.Name(id=q, ctx=ast.Store())], value=ast.Call(func=st.value.func, args=[], keywords=[]))
+                rep = [ast.fix_missing_locations(ast.copy_location(empty, st)), loop_over(st.value.args[0], q, None, st)]
+            out.extend(rep if rep is not None else [st])
+        # merge adjacent append-only loops over the same collection
+        merged = []
+        for st in out:
+            if merged and isinstance(st, ast.For) and isinstance(merged[-1], ast.For) and norm(st.iter) == norm(merged[-1].iter) \
+                    and all(isinstance(b, ast.Expr) and isinstance(b.value, ast.Call) and isinstance(b.value.func, ast.Attribute) and b.value.func.attr == "append"
+                            for b in st.body + merged[-1].body) and not st.orelse and not merged[-1].orelse:
+                tv, pv = norm(st.target), norm(merged[-1].target)
+
+                class Rn(ast.NodeTransformer):
+                    def visit_Name(self, n):
+                        return ast.copy_location(ast.Name(id=pv, ctx=n.ctx), n) if n.id == tv else n
+                merged[-1].body.extend(Rn().visit(b) for b in st.body)
+            else:
+                merged.append(st)
+        return merged
+    node.body = rewrite(node.body)
+    ast.fix_missing_locations(node)
+    for parent in ast.walk(node):
+        for child in ast.iter_child_nodes(parent):
+            child._parent = parent
+    node._parent = getattr(f.node, "_parent", None)
+    v = FuncInfo(f.name, f.qualname, f.module, f.cls, node, f.role, f.prop)
+    v.inlined_helpers = list(getattr(g, "inlined_helpers", []))
+    return v
+
+
 # -- C08 -----------------------------------------------------------------------------------------
 @register("C08",
           "Static analysis of uniquify.py (narrow claim; that the elaborated design is unchanged is a graph property of runtime netlists and "
@@ -128,12 +211,16 @@ def check_c08(ctx, R):
     entry = mod.functions.get("uniquify")
     if entry is None:
         raise AnalysisError("anchor vanished: uniquify()")
+    counters0 = _counter_functions(mod)
+    views = {fn: _canon(P, f, keep=tuple(counters0)) for fn, f in mod.functions.items()}
     R.rule("U1", "the clone is placed in the original's library and the instance is re-pointed to it, on every path")
     R.rule("U2", "generated definition names (and EDIF identifiers) carry a suffix from a counter that advances once per call")
     R.rule("U3", "work list: seeded with all children of the top, closed under children of the (new) reference, no path skips the queueing")
     R.rule("U4", "an instance is made unique exactly when the uniqueness test on it fails")
-    cloners = [f for f in mod.functions.values() if _calls(f.node, lambda c: _is_method(c, "clone")) and any(
+    cloners = [f for f in views.values() if _calls(f.node, lambda c: _is_method(c, "clone")) and any(
         isinstance(a, ast.Assign) and isinstance(a.targets[0], ast.Attribute) and a.targets[0].attr == "reference" for a in walk_local(f.node))]
+    names = {c.qualname for c in cloners}
+    cloners = [c for c in cloners if not (set(c.inlined_helpers) & (names - {c.qualname}))]
     if len(cloners) != 1 or not cloners[0].params:
         raise AnalysisError("anchor vanished: the function of uniquify.py that clones a definition and re-points the instance (%d candidates)" % len(cloners))
     mk = cloners[0]
@@ -144,9 +231,18 @@ def check_c08(ctx, R):
     if len(cl) != 1:
         raise AnalysisError("U1: cannot identify the clone variable of %s" % mk.qualname)
     cvar = cl[0].targets[0].id
+    cvars = {cvar}  # the clone under all the local names it is handed on by (`x = clone`; a helper's local returned into the caller's)
+    grew = True
+    while grew:
+        grew = False
+        for a in walk_local(mk.node):
+            if isinstance(a, ast.Assign) and len(a.targets) == 1 and isinstance(a.targets[0], ast.Name) and isinstance(a.value, ast.Name) \
+                    and a.value.id in cvars and a.targets[0].id not in cvars:
+                cvars.add(a.targets[0].id)
+                grew = True
     repoint = [a for a in walk_local(mk.node) if isinstance(a, ast.Assign) and norm(a.targets[0]) == "%s.reference" % inst]
-    adds = _calls(mk.node, lambda c: _is_method(c, "add_definition") and c.args and norm(c.args[0]) == cvar)
-    if not repoint or any(norm(a.value) != cvar for a in repoint):
+    adds = _calls(mk.node, lambda c: _is_method(c, "add_definition") and c.args and norm(c.args[0]) in cvars)
+    if not repoint or any(norm(a.value) not in cvars for a in repoint):
         R.bad("U1", "%s|re-point" % mk.key, mk.loc(repoint[0] if repoint else None),
               "%s does not assign the clone `%s` to `%s.reference`: the instance keeps sharing its definition (or is pointed at something else)" % (mk.qualname, cvar, inst))
     else:
@@ -190,7 +286,7 @@ def check_c08(ctx, R):
     R.floor("fresh-suffix counters (U2)", 1)
     for fn, (cf, counter) in sorted(counters.items()):
         _check_counter(R, "U2", cf, counter)
-    name_sets = [a for a in walk_local(mk.node) if isinstance(a, ast.Assign) and norm(a.targets[0]) == "%s.name" % cvar]
+    name_sets = [a for a in walk_local(mk.node) if isinstance(a, ast.Assign) and norm(a.targets[0]) in {"%s.name" % c for c in cvars}]
     if not name_sets:
         R.bad("U2", "%s|no-name" % mk.key, mk.loc(), "%s never renames the clone: it carries the original's name, which add_definition refuses as a duplicate" % mk.qualname)
 
@@ -221,7 +317,7 @@ def check_c08(ctx, R):
         else:
             R.bad("U2", "%s|name" % mk.key, mk.loc(a), "%s sets the clone's name to `%s`, which is not the original's name plus a suffix from the counter: "
                   "names of generated definitions collide (or lose the original name)" % (mk.qualname, short(a.value, 50)))
-    id_sets = [a for a in walk_local(mk.node) if isinstance(a, ast.Assign) and isinstance(a.targets[0], ast.Subscript) and norm(a.targets[0].value) == cvar
+    id_sets = [a for a in walk_local(mk.node) if isinstance(a, ast.Assign) and isinstance(a.targets[0], ast.Subscript) and norm(a.targets[0].value) in cvars
                and isinstance(a.targets[0].slice, ast.Constant) and a.targets[0].slice.value == "EDIF.identifier"]
     if not id_sets:
         R.bad("U2", "%s|no-identifier" % mk.key, mk.loc(), "%s leaves the clone with the original's EDIF.identifier: in a netlist read from EDIF the library "
@@ -232,6 +328,8 @@ def check_c08(ctx, R):
         else:
             R.bad("U2", "%s|identifier" % mk.key, mk.loc(a), "%s sets the clone's EDIF.identifier to `%s`, not the original identifier plus a fresh suffix" % (mk.qualname, short(a.value, 50)))
     # ---- U3 / U4
+    entry = _canon(P, entry, keep=tuple(counters0) + (mk.name,) + tuple(fn for fn in mod.functions if fn != "uniquify" and any(
+        isinstance(x, ast.Return) and x.value is not None for x in walk_local(mod.functions[fn].node))))
     w, pops = _work_loop(entry)
     if w is None:
         raise AnalysisError("anchor vanished: the work loop of uniquify()")
@@ -364,15 +462,19 @@ def check_c09(ctx, R):
     R.rule("F3", "a hierarchical instance queues all children, moves all cables (snapshot), redoes every port and is removed at the end")
     R.rule("F4", "connection merge: both sides disconnected first, snapshot of the inner net, disconnect/connect paired")
     R.rule("F5", "generated identifiers come from a counter that advances once per call")
+    counters0 = _counter_functions(mod)
+    views = {fn: _canon(P, f, keep=tuple(counters0)) for fn, f in mod.functions.items() if fn != "flatten"}
+    # which queue carries instances: the one whose variable is handed to the mover as first argument
+    movers = [f for f in views.values() if len(f.params) == 3 and _calls(f.node, lambda c: _is_method(c, "add_child")) and _calls(f.node, lambda c: _is_method(c, "add_cable"))]
+    if len(movers) != 1:
+        raise AnalysisError("anchor vanished: the function of flatten.py that moves an instance or a cable to the top (%d candidates)" % len(movers))
+    mv = movers[0]
+    redo0 = [f for f in views.values() if len(f.params) == 2 and _calls(f.node, lambda c: _is_method(c, "disconnect_pin")) and _calls(f.node, lambda c: _is_method(c, "connect_pin"))]
+    entry = _canon(P, entry, keep=tuple(counters0) + (mv.name,) + tuple(r.name for r in redo0))
     w, pops = _work_loop(entry)
     if w is None or len(pops) < 2:
         raise AnalysisError("anchor vanished: the work loop of flatten() with its two queues")
     (iq, ivar, ipop), (nq, nvar, npop) = pops[0], pops[1]
-    # which queue carries instances: the one whose variable is handed to the mover as first argument
-    movers = [f for f in mod.functions.values() if len(f.params) == 3 and _calls(f.node, lambda c: _is_method(c, "add_child")) and _calls(f.node, lambda c: _is_method(c, "add_cable"))]
-    if len(movers) != 1:
-        raise AnalysisError("anchor vanished: the function of flatten.py that moves an instance or a cable to the top (%d candidates)" % len(movers))
-    mv = movers[0]
     first_mv = [c for c in _calls(w, lambda c: isinstance(c.func, ast.Name) and c.func.id == mv.name and len(c.args) == 3)]
     if first_mv and norm(first_mv[0].args[0]) == nvar:
         (iq, ivar, ipop), (nq, nvar, npop) = (nq, nvar, npop), (iq, ivar, ipop)
@@ -492,7 +594,11 @@ def check_c09(ctx, R):
         if lp is None:
             continue
         it = norm(lp.iter)
-        if it.endswith(".cables"):
+        if isinstance(lp.iter, ast.Call) and norm(lp.iter.func) in ("list", "tuple") and lp.iter.args and norm(lp.iter.args[0]) == "%s.reference.cables" % ivar:
+            ok_snapshot = True
+            if norm(c.args[1]) != "%s.name" % ivar:
+                R.bad("F3", "%s|cable path" % entry.key, entry.loc(c), "cables are moved with the prefix `%s`, not the instance's path `%s.name`" % (norm(c.args[1]), ivar))
+        elif it.endswith(".cables"):
             R.bad("F3", "%s|live cables" % entry.key, entry.loc(lp), "cables are moved to the top while iterating `%s`, the very list they are removed from: every second cable is skipped and lost" % it)
             ok_snapshot = None
         elif isinstance(lp.iter, ast.Name):
@@ -508,7 +614,7 @@ def check_c09(ctx, R):
         R.ok("F3", "all cables of a hierarchical instance are moved, from a snapshot of the list", entry.loc(cable_moves[0]))
     elif ok_snapshot is False:
         R.bad("F3", "%s|cables" % entry.key, entry.loc(w), "the cables of a hierarchical instance are not (all) moved to the top: the nets inside it disappear with the shell")
-    redo = [f for f in mod.functions.values() if len(f.params) == 2 and _calls(f.node, lambda c: _is_method(c, "disconnect_pin")) and _calls(f.node, lambda c: _is_method(c, "connect_pin"))]
+    redo = redo0
     if len(redo) != 1:
         raise AnalysisError("anchor vanished: the function of flatten.py that merges the nets on both sides of a port (%d candidates)" % len(redo))
     rd = redo[0]
@@ -577,13 +683,15 @@ def check_c09(ctx, R):
             paired = _calls(mvl, lambda c: _is_method(c, "disconnect_pin") and norm(c.func.value) == iw and c.args and norm(c.args[0]) == tv)
             first_d = paired[0].lineno if paired else None
             first_c = _calls(mvl, lambda c: _is_method(c, "connect_pin"))[0].lineno
+            snap_call = isinstance(mvl.iter, ast.Call) and ((norm(mvl.iter.func) in ("list", "tuple") and mvl.iter.args and norm(mvl.iter.args[0]) == "%s.pins" % iw)
+                                                           or norm(mvl.iter) == "%s.pins.copy()" % iw)
             if it == "%s.pins" % iw:
                 R.bad("F4", "%s|live pins" % rd.key, rd.loc(mvl), "%s moves pins while iterating `%s.pins`, the list the disconnect shrinks: every second pin stays on the inner net and "
                       "is cut off from the merged net" % (rd.qualname, iw))
             elif not paired or first_d > first_c:
                 R.bad("F4", "%s|move pairing" % rd.key, rd.loc(mvl), "%s connects a moved pin to the outer net without first disconnecting it from the inner net: the connect is refused" % rd.qualname)
             else:
-                src_ok = False
+                src_ok = snap_call
                 if isinstance(mvl.iter, ast.Name):
                     fills = [x for x in walk_local(pl) if isinstance(x, ast.For) and norm(x.iter) == "%s.pins" % iw
                              and _calls(x, lambda c2: _is_method(c2, "append") and norm(c2.func.value) == mvl.iter.id)]
